@@ -20,6 +20,10 @@ PROP = dict(
         "numbers in model comparisons are integers of magnitude < 10^15 (hlib.Canon prints larger ones in %g); "
         "fractional and huge numbers (up to 20 digits, exponent |e| < 280) only in the float stream, where the law "
         "decode(encode(decode d)) = decode d is checked on the Go side without the model",
+        "non-finite numbers (NaN, +/-Inf) and huge/denormal/negative-zero numbers are outside the integer model: their "
+        "behaviour on the unchanged tree is pinned as implementation-side laws (JSON encode is an error; YAML preserves "
+        "them through encode/decode; CSV rejects numbers; MarshalToJSON rejects them, by panicking: KF-wire-nonfinite-panic); "
+        "NaN is compared as NaN, -0 as 0 (hlib.Canon)",
         "strings over ASCII, Latin-1, BMP and astral code points incl. quotes, backslashes, controls, U+2028, U+FEFF, "
         "U+FFFF; no surrogate code points (Go replaces them by U+FFFD when converting runes to UTF-8)",
         "documents: depth <= 3 (quick 2), width <= 3; matrices <= 3x3; strings/arrays dense (no holes); plain sets in "
